@@ -506,6 +506,8 @@ macro_rules! float_cases {
                 vec![0.05; 8], vec![1.0, 0.5, 0.11, 7.0, 1e-3, 0.05, big, 1.0],
                 // maximum exactly at the 0.1 switch with tiny other entries, and just above it
                 vec![0.1, 1e-3, 1e-3], vec![1e-3, 0.1], vec![0.11, 1e-3, 1e-3], vec![1e-3, 1e-3, 0.1, 1e-3],
+                // unequal small entries in descending order and with the maximum in the middle (the lists above are ascending)
+                vec![0.1, 0.05], vec![0.08, 0.02], vec![0.1, 0.05, 0.02], vec![0.02, 0.1, 0.05],
             ];
             alphas.push((0..64).map(|i| [1e-3, 0.05, 0.1, 0.02][i % 4]).collect());
             alphas.push((0..64).map(|i| [1e-3, 0.05, 0.11, 0.5, 1.0, 7.0, big][i % 7]).collect());
